@@ -25,7 +25,7 @@ GENS = {'g1': (1, None), 'g2': (2, None), 'g3': (2, 1)}     # chunklen, stepsize
 _CTX = {}
 
 
-def instance(alg, maxctx, gens):
+def instance(alg, maxctx, gens, modes=('d',)):
     frames = []
     for g in gens:
         c, s = GENS[g]
@@ -33,15 +33,15 @@ def instance(alg, maxctx, gens):
     fr = ''.join(frames) + '<<>>' + ')' * len(frames)
     mod = 'MC_Mmap_%s' % alg
     text = ('---- MODULE %s ----\nEXTENDS Mmap\nF == INSTANCE Frames\n'
-            'c_Gens == %s\nc_Frames == [g \\in c_Gens |-> %s]\n====\n') % (mod, tlaval(set(gens)), fr.replace('IterIndices', 'F!IterIndices').replace('NoneV', 'F!NoneV'))
+            'c_Gens == %s\nc_Frames == [g \\in c_Gens |-> %s]\nc_Modes == %s\n====\n') % (mod, tlaval(set(gens)), fr.replace('IterIndices', 'F!IterIndices').replace('NoneV', 'F!NoneV'), tlaval(set(modes)))
     cfg = ('SPECIFICATION Spec\nCONSTANTS\n Gens <- c_Gens\n Frames <- c_Frames\n MaxCtx = %d\n NUnits = 3\n'
-           ' Algorithm = "%s"\n MaxMaps = 6\nINVARIANT NoUseAfterUnmap\nINVARIANT HoldersMapped\nINVARIANT NoLeak\n'
-           'INVARIANT OneMap\n') % (maxctx, alg)
+           ' Algorithm = "%s"\n MaxMaps = 6\n Modes <- c_Modes\nINVARIANT NoUseAfterUnmap\nINVARIANT HoldersMapped\nINVARIANT NoLeak\n'
+           'INVARIANT OneMap\nINVARIANT ModeKnown\n%s') % (maxctx, alg, 'PROPERTY MapStable\n' if alg == 'refcount' else '')
     return mod, text, cfg
 
 
-def run_model(alg, maxctx, gens, dump):
-    mod, text, cfg = instance(alg, maxctx, gens)
+def run_model(alg, maxctx, gens, dump, modes=('d',)):
+    mod, text, cfg = instance(alg, maxctx, gens, modes)
     wd = tlc.workdir()
     with open(os.path.join(wd, mod + '.tla'), 'w') as f:
         f.write(text)
@@ -54,6 +54,9 @@ def run_model(alg, maxctx, gens, dump):
 
 
 # ------------------------------------------------------------------ child
+MODEKW = {'r': 'r', 'rp': 'r+'}
+
+
 def child_run(path, schedule, wfd):
     """runs in a forked child: perform the schedule, report what each action
     returned, then what is still open"""
@@ -65,8 +68,10 @@ def child_run(path, schedule, wfd):
     out = []
     for (name, arg) in schedule:
         if name == 'Start':
+            arg, md = arg
             c, s = GENS[arg]
-            gens[arg] = a.iterchunks(chunklen=c * UNIT, stepsize=None if s is None else s * UNIT)
+            gens[arg] = a.iterchunks(chunklen=c * UNIT, stepsize=None if s is None else s * UNIT,
+                                     **({} if md == 'd' else {'accessmode': MODEKW[md]}))
             ch = next(gens[arg])
             out.append([int(x) for x in ch[::UNIT]] + [int(len(ch) // UNIT)])
         elif name == 'Advance':
@@ -80,7 +85,7 @@ def child_run(path, schedule, wfd):
             del gens[arg]
             out.append([])
         elif name == 'Enter':
-            cm = a.open_array()
+            cm = a.open_array() if arg == 'd' else a.open_array(accessmode=MODEKW[arg])
             cm.__enter__()
             ctxs.append(cm)
             out.append([])
@@ -191,7 +196,7 @@ def run(tier, seed):
     if not rp.violation:
         raise Machinery('the model of the pinned (owner-closes) algorithm shows no violation: Mmap.tla is vacuous')
     run.cov['pinned_algorithm_counterexample'] = [lab.split(' line')[0] for lab, _ in rp.trace]
-    r, g = run_model('refcount', 2, gens, dump=True)
+    r, g = run_model('refcount', 2, gens, dump=True, modes=('d', 'r', 'rp'))
     tlc.must_pass(r, 'MC_Mmap_refcount')
     tlc.check_coverage(r, ['Start', 'Advance', 'Close', 'Enter', 'Exit', 'Read', 'Write'], 'MC_Mmap_refcount')
     run.tlc('Mmap_refcount', r)
@@ -264,6 +269,8 @@ def run(tier, seed):
         if len(acc) == L:
             return
         for e in g.edges.get(node, []):
+            if not thorough and e[0] in ('Start', 'Enter') and e[1][-1] != 'd':
+                continue        # quick: explicit access modes come with the edge cover (a) and the random schedules (c)
             acc.append(e)
             rec(e[2], acc)
             acc.pop()
@@ -291,7 +298,7 @@ def run(tier, seed):
         _CTX.update(template=template, base=os.path.join(root, 'w'), paths=[template])
         jobs = []
         for i, p in enumerate(scheds):
-            sched = [(e[0], (e[1][0] if e[1] else None)) for e in p]
+            sched = [(e[0], (list(e[1]) if e[0] == 'Start' else (e[1][0] if e[1] else None))) for e in p]
             exp = [expected_of(g, e) for e in p]
             jobs.append((i, sched, exp))
         batches = [jobs[i:i + 50] for i in range(0, len(jobs), 50)]
@@ -326,6 +333,7 @@ def run(tier, seed):
     for p in scheds[:2] + scheds[-1:]:
         run.sample(['%s(%s)' % (e[0], ', '.join(str(x) for x in e[1])) for e in p])
     run.cov['rule'] = ('schedules = behaviours of spec/Mmap.tla (3 generators with different chunk parameters, 2 nested '
+                       'contexts, each started with accessmode None / r / r+ - the first user decides the mode of the shared map -, '
                        'contexts, element reads and writes on a 3 MiB int64 array): every graph edge reached through a '
                        'shortest prefix, all schedules up to the stated length, long random ones, each completed by a '
                        'random admissible order of finishing the survivors; each runs in its own forked child; exit '
